@@ -178,6 +178,13 @@ class Scenario:
                 x, f = live[0] if c == "f" else live[-1]
                 log.add("func_finish", e=x)
                 loop.do(f.set_result, None)
+        elif c == "g":
+            live = [(x, f) for x, f in self.tasks if not f.done()]
+            if live:
+                x, f = live[0]
+                self.nfail = getattr(self, "nfail", 0) + 1
+                log.add("func_fail", e=x)
+                loop.do(f.set_exception, aprobe.ConsumerError("function of element %s failed" % x))
         elif c == "s":
             loop.step()
             # map_async polls for a free slot with sleep(0): the ready queue never empties while it waits
@@ -232,6 +239,8 @@ class Scenario:
             return any(not f.done() for _, f in self.tasks)
         if c == "F":
             return sum(1 for _, f in self.tasks if not f.done()) > 1
+        if c == "g":
+            return bool(self.cfg.get("faults")) and getattr(self, "nfail", 0) < 3 and any(not f.done() for _, f in self.tasks)
         if c == "s":
             return (loop.live_ready() > 0 or loop.due() > 0) and self.idle_steps < 6
         # the clock moves only while the loop is idle ("timers fire on time")
@@ -321,7 +330,9 @@ def alphabet(cfg):
         al += ["a", "w"]
     if k == "map_async":
         al += ["f", "F"]
-    if cfg.get("faults"):
+    if cfg.get("faults") and k == "map_async":
+        al += ["g"]
+    elif cfg.get("faults"):
         al += ["x"]
     return al
 
@@ -355,7 +366,7 @@ def enumerate_schedules(cfg, depth, limit, rng):
 
 def random_schedules(cfg, count, maxlen, rng):
     al = alphabet(cfg)
-    w = {"e": 3, "s": 4, "d": 2, "D": 1, "a": 2, "w": 1, "f": 2, "F": 1, "x": 1}
+    w = {"e": 3, "s": 4, "d": 2, "D": 1, "a": 2, "w": 1, "f": 2, "F": 1, "x": 1, "g": 2}
     out = []
     for _ in range(count):
         n = rng.randint(4, maxlen)
